@@ -194,6 +194,8 @@ func valuePool() []Term {
 	// sets of every element type: empty, singleton, 3-element, overlapping
 	p = append(p, SetOf(),
 		SetOf(I(1)), SetOf(I(1), I(2), I(3)), SetOf(I(3), I(2)), SetOf(I(math.MinInt64), I(math.MaxInt64)),
+		SetOf(I(1), I(1), I(2)), SetOf(I(1), I(2), I(2)), SetOf(I(2), I(1), I(1)), // engine-level raw slices with repeats
+		SetOf(S("a"), S("a"), S("b")),
 		SetOf(S("a")), SetOf(S("a"), S("b"), S("abc")), SetOf(S("b"), S("é")),
 		SetOf(B([]byte{1})), SetOf(B([]byte{1}), B([]byte{1, 2}), B([]byte{})), SetOf(B([]byte{1, 2})),
 		SetOf(D(0)), SetOf(D(0), D(1), D(1<<63)),
